@@ -20,6 +20,26 @@ CHECKS = {
              'handlers finished, complete purge, at most one success per cycle in the undisturbed sub-domain) are checked '
              'against an independent reader of the persisted records. Bounded exploration, not a proof.',
         design_ref='5/C02'),
+    'C04': dict(
+        engine='pure',
+        technique='property-based testing: Hypothesis-generated bodies/storage configurations/field paths through kopf\'s own '
+                  'storages and diffs; oracles = metamorphic (framework writes and status/system edits leave the essence unchanged, '
+                  'essential edits change it), round-trip (apply_diff(old, diff) == new, also reduced to a field) against an '
+                  'independent RFC 7386 merge and diff applier; plus closed-loop two-operator ping-pong scenarios',
+        text='Generated-input exploration of the pure change-detection functions (thousands of bodies per run, incl. other '
+             'Kopf operators\' prefixes, ReplicaSet-of-Deployment marking, nulls/empties/unicode) and of the closed loop with '
+             'one or two operators on the same object; bounded, not a proof.',
+        note='trusted base: the independent merge-patch/diff appliers in kopfsim/rfc.py and props/c04.py; the other operator is '
+             'assumed to use the stock storages; closed-loop part as for the kopfsim engine',
+        design_ref='5/C04'),
+    'C05': dict(
+        technique='bounded-exhaustive enumeration of the finite cause space against a reference decision list, plus '
+                  'property-based closed-loop histories (Hypothesis) whose every handler invocation is judged against the body it saw',
+        text='The finite product (event type x deletion mark x own/foreign finalizers x stored state x first-sight x handler kind, '
+             '576 combinations) is enumerated completely on every run and compared with the decision list of the statement; the '
+             'closed-loop part explores generated histories (deletions racing open cycles, released objects at first sight, '
+             'restarts) - bounded exploration.',
+        design_ref='5/C05'),
 }
 
 REASON_TODO = 'no check is registered for it yet in this revision (planned; see DESIGN.md section 9)'
